@@ -582,11 +582,16 @@ pub(super) fn get_requirements(
             // Since there is aggregation anyway, columns can have any complexity
             .allow_up_to(Complexity::highest()),
 
-        Super(Transform::Take(rq::Take { range, .. })) => [&range.start, &range.end]
+        Super(Transform::Take(rq::Take { range, sort, .. })) => [&range.start, &range.end]
             .into_iter()
             .flatten()
             .map(Requirements::from_expr)
-            .fold(Requirements::default(), Requirements::append),
+            .fold(Requirements::default(), Requirements::append)
+            // the ORDER BY of the take is emitted in the same SELECT
+            .append(
+                Requirements::from_cids(sort.iter().map(|s| &s.column))
+                    .allow_up_to(Complexity::Aggregation),
+            ),
 
         SqlTransform::Join { filter, .. } => Requirements::from_expr(filter),
 
